@@ -107,15 +107,41 @@ def gclose(cl):
     return "(@None (Z * N))" if cl is None else "(Some %s)" % gpair(gZ(cl[0]), gN(cl[1]))
 
 
+def composite_certificate(row, tol, lam):
+    """A live history as a run of the composed system: per round SWake, DeliverPing, CRearm,
+    DeliverPong, STake.  Returns None when the history has no complete round or the measured link
+    bounds do not satisfy lDown + lUp + 2D < T (the theorem's hypothesis)."""
+    I, T = row["I"], row["T"]
+    pings, pongs = sorted(row["cli_pings"]), sorted(row["srv_pongs"])
+    n = min(len(pings), len(pongs))
+    if n < 2:
+        return None
+    ld = lam
+    lu = max(d - p for p, d in zip(pings[:n], pongs[:n])) + 5
+    if lu < 0 or ld + lu + 2 * tol >= T:
+        return None
+    start = min(row["open_srv"], row["open_cli"]) - lam
+    evs, t = [], start
+    for k in range(n):
+        p, d = pings[k], pongs[k]
+        s = min(p, max(t + I, p - lam))
+        q = max(s, d)
+        evs += [(s, 0), (p, 10), (p, 12), (d, 11), (q, 2)]
+        t = q
+    t_end = min(row["end"], t + I)          # the tail after the last complete round is covered by agree_s/agree_c
+    return "(%s : xcase)" % gpair(gZ(I), gZ(T), gZ(tol), gZ(ld), gZ(lu), gZ(start),
+                                  glist(gpair(gZ(a), gN(b)) for a, b in evs), gZ(t_end))
+
+
 def hcase_term(row, tol, start, evs, cl):
-    return gpair(gZ(row["I"]), gZ(row["T"]), gZ(tol), gbool(DRAIN), gZ(start),
-                 glist(gpair(gZ(t), gN(k)) for t, k in evs), gZ(row["end"]),
-                 gclose(cl))
+    return "(%s : hcase)" % gpair(gZ(row["I"]), gZ(row["T"]), gZ(tol), gbool(DRAIN), gZ(start),
+                                  glist(gpair(gZ(t), gN(k)) for t, k in evs), gZ(row["end"]),
+                                  gclose(cl))
 
 
 def ocase_term(kind, row, tol, t0, cl):
-    return gpair(gN(kind), gZ(row["I"]), gZ(row["T"]), gZ(tol), gZ(t0),
-                 gclose(cl), gZ(row["end"]))
+    return "(%s : ocase)" % gpair(gN(kind), gZ(row["I"]), gZ(row["T"]), gZ(tol), gZ(t0),
+                                  gclose(cl), gZ(row["end"]))
 
 
 def build_terms(row, widen):
@@ -132,16 +158,20 @@ def build_terms(row, widen):
         out.append(("agree:client", "agree_c", hcase_term(row, tol, start, evs, cl)))
     # --- oracles
     if row["fault"] == "none":
+        x = composite_certificate(row, tol, lam)
+        if x is not None:
+            out.append(("agree:composed", "agree_x", x))
         out.append(("oracle:live-server", "oracle", ocase_term(2, row, tol, 0, close_of(row["srv_close"]))))
         out.append(("oracle:live-client", "oracle", ocase_term(2, row, tol, 0, close_of(row["cli_close"]))))
     elif jitter:
         out.append(("oracle:live-client", "oracle", ocase_term(2, row, tol, 0, close_of(row["cli_close"]))))
     else:
+        strict = row["fault"] == "both"   # nothing but the heartbeat can close: the reason must be ping timeout
         t0s = max([row["open_srv"]] + row["srv_pongs"])
-        out.append(("oracle:dead-server", "oracle", ocase_term(0, row, tol, t0s, close_of(row["srv_close"]))))
+        out.append(("oracle:dead-server", "oracle", ocase_term(3 if strict else 0, row, tol, t0s, close_of(row["srv_close"]))))
         if not raw:
             t0c = max([row["open_cli"]] + row["cli_pings"])
-            out.append(("oracle:dead-client", "oracle", ocase_term(1, row, tol, t0c, close_of(row["cli_close"]))))
+            out.append(("oracle:dead-client", "oracle", ocase_term(4 if strict else 1, row, tol, t0c, close_of(row["cli_close"]))))
     return out
 
 
@@ -152,7 +182,7 @@ def evaluate(ctx, name, rows, widen):
         for tag, fn, term in build_terms(r, widen):
             items.append((i, tag, fn, term))
     bad = {}
-    for fn in ("agree_s", "agree_c", "oracle"):
+    for fn in ("agree_s", "agree_c", "agree_x", "oracle"):
         sel = [x for x in items if x[2] == fn]
         idx = ctx.coq_eval_cases("%s_%s_w%d" % (name, fn, widen), HDR, [x[3] for x in sel], fn, shard=200)
         for j in idx:
@@ -233,31 +263,36 @@ def run_suite(ctx, vh, name, args):
     for i in straddling:
         ctx.indeterminate += 1
         ctx.note("scenario %s passes only with a 3x tolerance: indeterminate" % usable[i]["name"])
-    # A failure (other than one of a known class) must reproduce: the scenario is run again, twice,
-    # and is reported only if it fails every time (a scheduling hiccup does not reproduce, a defect does).
-    confirmed = {}
+    # A failure (other than one of a known class) must reproduce: the failing scenarios are run again,
+    # twice, and one is reported only if it fails every time (a scheduling hiccup does not
+    # reproduce, a defect does).
+    confirmed, pending = {}, {}
     for i, tags in sorted(still.items()):
         r = usable[i]
         otags = {x for x in tags if x.startswith("oracle")}
         if otags and finding_key(r, otags) and not (tags - otags):
             confirmed[i] = (r, tags)
-            continue
-        rep_r, rep_tags, reproduced = r, tags, True
-        for attempt in range(2):
-            again = ctx.vh_jsonl(vh, "heartbeat", args + ["-only", r["name"], "-exact", "-attempt", attempt + 1], timeout=600)
-            if not again or again[0].get("env") or again[0]["err"]:
-                reproduced = False
-                break
-            st2, _ = classify(ctx, "%s_retry%d_%d" % (name, i, attempt), again[:1])
-            if 0 not in st2:
-                reproduced = False
-                break
-            rep_r, rep_tags = again[0], st2[0]
-        if reproduced:
-            confirmed[i] = (rep_r, tags | rep_tags)
         else:
-            ctx.indeterminate += 1
-            ctx.note("scenario %s failed once (%s) but not when run again: indeterminate" % (r["name"], sorted(tags)))
+            pending[i] = (r, tags)
+    for attempt in range(2):
+        if not pending:
+            break
+        names = ",".join(usable[i]["name"] for i in sorted(pending))
+        again = ctx.vh_jsonl(vh, "heartbeat", args + ["-names", names, "-attempt", attempt + 1], timeout=900)
+        byname = {a["name"]: a for a in (again or []) if not a.get("env") and not a["err"]}
+        order = [i for i in sorted(pending) if usable[i]["name"] in byname]
+        st2, _ = classify(ctx, "%s_retry%d" % (name, attempt), [byname[usable[i]["name"]] for i in order])
+        nxt = {}
+        for j, i in enumerate(order):
+            if j in st2:
+                nxt[i] = (byname[usable[i]["name"]], pending[i][1] | st2[j])
+        for i in pending:
+            if i not in nxt:
+                ctx.indeterminate += 1
+                ctx.note("scenario %s failed (%s) but not when run again: indeterminate"
+                         % (usable[i]["name"], sorted(pending[i][1])))
+        pending = nxt
+    confirmed.update(pending)
     n_agree_bad = sum(1 for _, t in confirmed.values() if any(x.startswith("agree") for x in t))
     n_oracle_bad = n_oracle_unknown = 0
     for i, (r, tags) in sorted(confirmed.items()):
